@@ -586,3 +586,57 @@ def search(rec, ctx):
         check_grammar(rec, rules, g.feats, budget, "random")
 
     drive(st.randoms(use_true_random=False), gen, ctx.budget(560, 4000), ctx.hseed("grammars"))
+
+
+def candidates(case):
+    """smaller grammars: drop a rule's alternative, drop an item, replace a group by one of its alternatives' items, drop (memo)"""
+    import copy
+
+    rules = case["rules"]
+    text = __import__("json").dumps(rules)
+    for ri, (name, memo, alts) in enumerate(rules):
+        if name != "start" and f'["ref", "{name}"]' not in text:
+            c = copy.deepcopy(case)
+            del c["rules"][ri]
+            yield c
+    for ri, (name, memo, alts) in enumerate(rules):
+        if name == "start":
+            continue
+        if memo:
+            c = copy.deepcopy(case)
+            c["rules"][ri][1] = False
+            yield c
+        if len(alts) > 1:
+            for ai in range(len(alts)):
+                c = copy.deepcopy(case)
+                del c["rules"][ri][2][ai]
+                yield c
+        for ai, (items, action) in enumerate(alts):
+            if len(items) > 1:
+                for ii in range(len(items)):
+                    c = copy.deepcopy(case)
+                    it = c["rules"][ri][2][ai][0]
+                    removed = it[ii][0]
+                    del it[ii]
+                    if removed and c["rules"][ri][2][ai][1] and removed in c["rules"][ri][2][ai][1]:
+                        c["rules"][ri][2][ai][1] = None
+                        for x in it:
+                            x[0] = None
+                    yield c
+            for ii, (nm, item) in enumerate(items):
+                if item[0] in ("opt", "rep0", "rep1", "pos", "neg"):
+                    c = copy.deepcopy(case)
+                    c["rules"][ri][2][ai][0][ii][1] = item[1]
+                    yield c
+                if item[0] == "grp":
+                    for galt in item[1]:
+                        for _, gi in galt[0]:
+                            c = copy.deepcopy(case)
+                            c["rules"][ri][2][ai][0][ii][1] = gi
+                            yield c
+    # shorter input
+    w = case["words"]
+    for i in range(len(w)):
+        c = copy.deepcopy(case)
+        del c["words"][i]
+        yield c
